@@ -92,7 +92,7 @@ theorem dlw_pending (fuel : Nat) (w : World) (rest : Bytes) (hs : w.slot = none)
   rfl
 
 theorem dlw_empty (fuel : Nat) (w : World) : doLocalWrite (fuel + 1) w 0 [] = doLocalFlush fuel w 0 := by
-  simp only [doLocalWrite, List.isEmpty_nil, if_true]
+  simp only [doLocalWrite, List.isEmpty_nil, if_true, discDone_zero]
 
 theorem dlf_pending (fuel : Nat) (w : World) (hs : w.slot = none) :
     doLocalFlush (fuel + 1) w 0 =
